@@ -221,13 +221,17 @@ def shards(tier):
                 out.append(dict(name=f'sched2/prog={prog},a0={a0},gaps', harness='sched2',
                                 fixed=dict(prog=prog, a0=a0, w0=0, w1=0), budget_s=300))
         else:
+            for a0 in (0, 4):
+                out.append(dict(name=f'sched1/prog={prog},a0={a0}', harness='sched1', fixed=dict(prog=prog, a0=a0), budget_s=600))
             for a0 in range(NACT):
                 for w0 in range(NWHERE):
-                    out.append(dict(name=f'sched2/prog={prog},a0={a0},w0={w0}', harness='sched2',
-                                    fixed=dict(prog=prog, a0=a0, w0=w0), budget_s=1500))
-                for a1 in range(NACT):
-                    out.append(dict(name=f'sched3/prog={prog},a0={a0},a1={a1}', harness='sched3',
-                                    fixed=dict(prog=prog, a0=a0, a1=a1), budget_s=1500))
+                    if w0 == 0 or prog in (1, 2, 3, 7, 8):
+                        out.append(dict(name=f'sched2/prog={prog},a0={a0},w0={w0}', harness='sched2',
+                                        fixed=dict(prog=prog, a0=a0, w0=w0), budget_s=1500))
+                if prog in (1, 2, 3):
+                    for a1 in range(NACT):
+                        out.append(dict(name=f'sched3/prog={prog},a0={a0},a1={a1}', harness='sched3',
+                                        fixed=dict(prog=prog, a0=a0, a1=a1), budget_s=1500))
     return out
 
 
@@ -235,7 +239,7 @@ BOUNDS = {
     'quick': dict(requests='K = 2 in gaps (at least one kill or future().cancel()); K = 1 kill/cancel from inside a listener notification, on a fresh process and on one restored from a checkpoint',
                   actions=[sched.ACT_NAMES[a] for a in ACTS], positions=f'gaps 0..{NPOS}; listener notification occurrence 0..2', programs='P0..P10',
                   data='kill text str len <= 2 (symbolic), resume value int'),
-    'thorough': dict(requests='K = 2 with gap or listener placement for each; K = 3 in gaps', actions=[sched.ACT_NAMES[a] for a in ACTS],
+    'thorough': dict(requests='K = 1 (fresh and restored process); K = 2 in gaps for all programs and with gap or listener placement for each request for P1 P2 P3 P7 P8; K = 3 in gaps for P1 P2 P3', actions=[sched.ACT_NAMES[a] for a in ACTS],
                      positions=f'gaps 0..{NPOS}', programs='P0..P10', data='str len <= 2 (<= 1 for K = 3), int'),
 }
 OUTSIDE = ['more than K requests', 'kill through a communicator (C16)', 'hooks that raise (C03)', 'real threads']
